@@ -83,6 +83,11 @@ func c14Forms() []secretForm {
 		{"duplicated-both-wrong", func(s, o string) string { return "lal_secret=aa&lal_secret=bb" }, 0},
 		{"duplicated-right+wrong", func(s, o string) string { return "lal_secret=" + c14Secret(s) + "&lal_secret=bb" }, -1},
 		{"malformed-query-no-right", func(s, o string) string { return "x=%zz&lal_secret=nope" }, 0},
+		// parameters that other layers give a meaning to must not stand in for the secret
+		{"absent+session_id", func(s, o string) string { return "session_id=1" }, 0},
+		{"wrong+session_id", func(s, o string) string { return "session_id=abcdef0123456789&lal_secret=00112233445566778899aabbccddeeff" }, 0},
+		{"empty+session_id", func(s, o string) string { return "lal_secret=&session_id=x" }, 0},
+		{"right+session_id", func(s, o string) string { return "session_id=1&lal_secret=" + c14Secret(s) }, -1},
 		{"malformed-query+right", func(s, o string) string { return "x=%zz&lal_secret=" + c14Secret(s) }, -1},
 		{"override-exact", func(s, o string) string {
 			if o == "" {
@@ -997,7 +1002,7 @@ func init() {
 			return n
 		},
 		CaseTimeout: func(string) time.Duration { return 5 * time.Minute },
-		Rule: "whole-server runs: (a) simple-auth matrix: 12 flag configurations (each flag alone, all on/off, override secret lower-case and with upper-case letters) × 9 protocol/direction requests (rtmp pub/sub, http-flv, ws-flv, http-ts, rtsp ANNOUNCE/DESCRIBE, hls m3u8 in both URL shapes) × 14 secret forms (absent, empty, wrong, right lower/UPPER, right for another stream, surrounded by other parameters, look-alike parameter name, duplicated right/wrong, malformed %zz query, override); expected outcome from a table written from the property text (three-valued: duplicated right+wrong and right-next-to-malformed are recorded, not judged); a refused publisher must not be listed by the stat API; (b) RTSP auth: Basic and Digest × none / right / right after 401 / wrong password / wrong user / other method / malformed (foreign nonce and other-uri replay recorded only); (c) kick of each session kind → socket EOF; kick of an HLS sub session (hash key on) that keeps polling → refused within 4 s; (d) blacklist 2 s: blocked ≤0.9 s, served ≥4.2 s, nothing judged in between; re-listing (1 s then at once 6 s): blocked at 2.5–4.2 s, served ≥8.2 s; (e) HLS file server: ≈300 traversal paths sent as raw HTTP with decoy files outside the root — no outside content returned, no outside path opened (instrumented file-system layer); (f) 14 hostile stream names via RTMP, RTSP and the customize API with HLS and both recorders on — no file created outside the configured directories. cell = clause × protocol × form.",
+		Rule: "whole-server runs: (a) simple-auth matrix: 12 flag configurations (each flag alone, all on/off, override secret lower-case and with upper-case letters) × 9 protocol/direction requests (rtmp pub/sub, http-flv, ws-flv, http-ts, rtsp ANNOUNCE/DESCRIBE, hls m3u8 in both URL shapes) × 18 secret forms (absent, absent/wrong/empty next to a session_id parameter, empty, wrong, right lower/UPPER, right for another stream, surrounded by other parameters, look-alike parameter name, duplicated right/wrong, malformed %zz query, override); expected outcome from a table written from the property text (three-valued: duplicated right+wrong and right-next-to-malformed are recorded, not judged); a refused publisher must not be listed by the stat API; (b) RTSP auth: Basic and Digest × none / right / right after 401 / wrong password / wrong user / other method / malformed (foreign nonce and other-uri replay recorded only); (c) kick of each session kind → socket EOF; kick of an HLS sub session (hash key on) that keeps polling → refused within 4 s; (d) blacklist 2 s: blocked ≤0.9 s, served ≥4.2 s, nothing judged in between; re-listing (1 s then at once 6 s): blocked at 2.5–4.2 s, served ≥8.2 s; (e) HLS file server: ≈300 traversal paths sent as raw HTTP with decoy files outside the root — no outside content returned, no outside path opened (instrumented file-system layer); (f) 14 hostile stream names via RTMP, RTSP and the customize API with HLS and both recorders on — no file created outside the configured directories. cell = clause × protocol × form.",
 		Assumptions: []string{"admission is observed as pub_start/sub_start notification, HTTP status line, RTSP status, or playlist bytes; refusal as connection close / non-200 / no playlist bytes", "case variants of the override secret and Digest nonce freshness are not defined by the property: recorded, not judged"},
 		MinCells: 20,
 		Run: func(c *fw.Ctx, i int) {
